@@ -33,6 +33,11 @@ def make_path(rng):
     retracted = False
     for _ in range(rng.randint(12, 30)):
         roll = rng.random()
+        if roll < 0.04 and steps and not retracted:
+            # the path re-homes in the middle (from here on it continues from the origin)
+            steps.append(("home",))
+            pos = {"X": 0, "Y": 0, "Z": 0}
+            continue
         if roll < 0.06 and steps:
             # a move to where the tool already is (zero-length in the relative encoding),
             # extruding in place when the file is not retracted
@@ -133,6 +138,16 @@ def encode(regions, steps, variant, at, rng, shift=(0, 0), erel=False):
                 e = de if erel else e + de
                 words.append("E" + (fmt_in(e // STEP) if inch else fmt_mm(e)))
             out.append(("g", "G1 " + " ".join(words), {}))
+        elif step[0] == "home":
+            out.append(("g", "G28", {}))
+            pos = {"X": 0, "Y": 0, "Z": 0}
+            off = {"X": 0, "Y": 0, "Z": 0}
+            # ... followed by a move to the (translated) origin in every encoding, so that the
+            # step ends at corresponding places; that move is the event the step is compared at
+            words = [word("X", shift[0]), word("Y", shift[1])]
+            pos["X"], pos["Y"] = shift[0], shift[1]
+            out.append(("g", "G1 " + " ".join(words), {}))
+            indices[-1] = len(out) - 1
         elif step[0] == "eonly":
             e = step[1] if erel else e + step[1]
             out.append(("g", "G1 E" + (fmt_in(e // STEP) if inch else fmt_mm(e)), {}))
